@@ -297,4 +297,7 @@ def run(F, rep):
     if n_e2 < 10:
         raise AnalysisBroken('C14.E2: only %d element-kind tests in parser.cpp (19 confirmed)' % n_e2)
 
+    # ------------------------------------------------------------------ both arms of a version test hand over the same values
+    from engines import rule_arm_agreement
+    rule_arm_agreement(F, rep, 'C14.B1', lambda g: g.file.endswith('/parser.cpp'), 'parser.cpp')
 
